@@ -22,6 +22,7 @@ package wmpt
 //@ func (Node).Weight returns (w)
 //@   pure
 //@   ensures !(self is *shortNode) ==> w == W0(self)
+//@   ensures self is *shortNode && self.(*shortNode) != nil && !(self.(*shortNode).value is *shortNode) ==> w == W0(self.(*shortNode).value)
 //@ func (Node).Dirty returns (d)
 //@   pure
 //@ func (Node).ToCollect returns (d)
@@ -54,8 +55,9 @@ package wmpt
 //@   assigns nothing
 //@   ensures w == W0(iface(v))                                   #reports-own-weight
 //@ func (*shortNode).Weight returns (w)
-//@   props C15
+//@   props C15 C10
 //@   assigns nothing
+//@   ensures !(s.value is *shortNode) ==> w == W0(s.value)                 #reports-the-weight-below
 //@ func (*hashNode).Weight returns (w)
 //@   props C15 C09
 //@   assigns nothing
@@ -107,14 +109,17 @@ package wmpt
 //@ spec Sum16(r *routingNode) int = (W(r.Children[0]) + W(r.Children[1]) + W(r.Children[2]) + W(r.Children[3]) + W(r.Children[4]) + W(r.Children[5]) + W(r.Children[6]) + W(r.Children[7])
 //@      | + W(r.Children[8]) + W(r.Children[9]) + W(r.Children[10]) + W(r.Children[11]) + W(r.Children[12]) + W(r.Children[13]) + W(r.Children[14]) + W(r.Children[15])) % 18446744073709551616
 //@ pred RCons(r *routingNode) = r.weight == Sum16(r)
+// W looks one level below a short node; a short node directly over another short node (never built
+// by insert/delete, but a proof may contain it) is outside what RCons can speak about.
+//@ pred ShapeOK(r *routingNode) = forall j :: 0 <= j && j < 16 ==> (r.Children[j] is *shortNode ==> r.Children[j].(*shortNode) != nil && !(r.Children[j].(*shortNode).value is *shortNode))
 
 //@ func DeserializeNode returns (node, err)
 //@   props C15 C10
 //@   mode wrap
 //@   ensures err == nil ==> node != nil && fresh(node)                         #fresh-node
-//@   ensures err == nil && node is *routingNode ==> RCons(node.(*routingNode))   #decoded-branch-is-weight-consistent
+//@   ensures err == nil && node is *routingNode ==> RCons(node.(*routingNode)) && ShapeOK(node.(*routingNode))   #decoded-branch-is-weight-consistent
 //@   loop 1 invariant forall j :: 0 <= j && j < 16 ==> allocated(branchNode.Children[j]) && (branchNode.Children[j] == nil || branchNode.Children[j] is *hashNode
-//@      | || (branchNode.Children[j] is *shortNode && branchNode.Children[j].(*shortNode).value is *hashNode && allocated(branchNode.Children[j].(*shortNode).value)))      #children-are-claims
+//@      | || (branchNode.Children[j] is *shortNode && branchNode.Children[j].(*shortNode) != nil && branchNode.Children[j].(*shortNode).value is *hashNode && allocated(branchNode.Children[j].(*shortNode).value)))      #children-are-claims
 //@   loop 1 invariant RCons(&branchNode) && (forall j :: rangeindex < j && j < 16 ==> branchNode.Children[j] == nil)
 
 //@ func verifyProof returns (node, value, err)
@@ -125,7 +130,7 @@ package wmpt
 //@   ensures err == nil ==> node != nil && *ind > old(*ind)                      #progress
 // C10: the node rebuilt from the proof is weight-consistent (the child put in place of the claimed
 // one weighs what the parent claims), and the block lies inside the entry it resolves to.
-//@   ensures err == nil && node is *routingNode ==> RCons(node.(*routingNode))   #rebuilt-branch-is-weight-consistent
+//@   ensures err == nil && node is *routingNode && ShapeOK(node.(*routingNode)) ==> RCons(node.(*routingNode))   #rebuilt-branch-is-weight-consistent
 //@   ensures err == nil && node is *valueNode ==> block <= node.(*valueNode).weight   #block-inside-the-entry
 //@   decreases len(persistTrie.Pairs) - *ind
 //@   assigns *ind, heap(routingNode.hash), heap(routingNode.dirty), heap(shortNode.hash), heap(shortNode.dirty), heap(valueNode.hash), heap(valueNode.dirty)
